@@ -30,6 +30,11 @@ try:
 except ImportError:
     pass
 try:
+    from . import lateshadow
+    FAMILIES["lateshadow"] = lateshadow
+except ImportError:
+    pass
+try:
     from . import misc
     FAMILIES["misc"] = misc
 except ImportError:
